@@ -30,7 +30,7 @@ times `next` resp. `next_back`, giving up with `None` at the first `None`, then 
 `ExactSizeIterator::len` = `size_hint().0`; the `size_hint` bodies are transcribed in Proofs/Iter2.lean (`Sp.oneLen`,
 `Sp.bitLen`, `Sp.zeroLen`, `RLI.oneLen`, `RLI.bitLen`, `RLI.zeroLen`, `WMI.intoLen`: one `usize` subtraction each,
 through `subM m`, so that a `len()` that would underflow is a fault of the run) and proven equal to the model's
-`remaining` on every reachable state (`…_len_is_remaining`).  The run machines are `Iter2.genRun` (two-ended:
+`remaining` on every reachable state (`…_len_is_remaining`).  The run machines are `Iter2.iterGenRun` (two-ended:
 full alphabet `ICall`), `Iter2.fwdRun` (forward-only exact-size iterators: `FCall` = `next` / `nth k` / `len`) and
 `Iter2.nRun` (forward-only iterators that are not `ExactSizeIterator`: `NCall` = `next` / `nth k`); the forward
 alphabets are embedded in `ICall` by `toICall`, so the reference is the same `dequeRunM`.  Forward-only in the
@@ -64,6 +64,7 @@ import Sds.Proofs.GenEqSpIter
 import Sds.Proofs.GenEqSpZero
 import Sds.Proofs.GenEqSpAll
 import Sds.Proofs.GenEqRL2
+import Sds.Proofs.IterBridge
 
 namespace Sds.C10
 open Sds Outcome IterProofs Iter2
@@ -712,5 +713,20 @@ theorem rl_iterators_as_translated_from_source {m : Mode} {v : RL} (hb : GenEq.R
    fun hlen hol z hgn hp hi => GenEq.rl_zero_next_eq hb z hlen hol hgn hp hi,
    fun hol z h => GenEq.rl_zero_size_hint_eq m v z hol h,
    fun it hrun hp => GenEq.rl_iter_next_eq hb it hrun hp, fun it h => GenEq.rl_iter_size_hint_eq m v it h⟩
+
+/-! **A consumed `OneIter<T>` IS the list of its items** (`Proofs/IterBridge.lean`).  The translated constructors that
+consume an iterator (`SelectSupport::new`, the `copy_bit_vec`s) take it as the list of its remaining items, `next()` =
+head / tail and `nth(k)` = drop `k`.  This theorem discharges that step for the plain bitvector's one- and zero-iterators:
+started from the translated `one_iter()` / `zero_iter()`, ANY sequence of `next` / `nth k` calls run with the TRANSLATED
+`OneIter::next` / `OneIter::nth` yields exactly what the same calls yield on the list
+`enumerate (positionsT tr data)` of (rank, position) pairs, on every well-formed vector with a correct cached count. -/
+theorem consumed_one_iter_is_its_list {b : BitVector} (g : GenEq.Good b) (m : Mode) (calls : List GenEq.FCall) :
+    (do let it ← Generated.gen_BitVector_one_iter m b
+        let r ← GenEq.iterGenRun m .ident b.data it calls
+        return r.1) = ok (GenEq.listRun (GenEq.enumerate (positionsT .ident b.data)) calls).1 ∧
+    (do let it ← Generated.gen_BitVector_zero_iter m b
+        let r ← GenEq.iterGenRun m .compl b.data it calls
+        return r.1) = ok (GenEq.listRun (GenEq.enumerate (positionsT .compl b.data)) calls).1 :=
+  ⟨GenEq.one_iter_is_its_list g m calls, GenEq.zero_iter_is_its_list g m calls⟩
 
 end Sds.C10
